@@ -67,7 +67,7 @@ func isAtomicAddCall(c *ast.CallExpr) (target *ast.Ident, ok bool) {
 
 func init() {
 	facts["logger"] = func(p *pkgInfo, w *bytes.Buffer) error {
-		wc := p.funcDecl("WithContext")
+		wc := p.topFunc("WithContext")
 		if wc == nil || wc.Body == nil {
 			return fmt.Errorf("func WithContext not found")
 		}
@@ -197,7 +197,7 @@ func init() {
 					vs := sp.(*ast.ValueSpec)
 					for i, id := range vs.Names {
 						if p.info.Defs[id] == counter && i < len(vs.Values) {
-							if v, ok := p.intConst(vs.Values[i]); ok {
+							if v, ok := p.intConst64(vs.Values[i]); ok {
 								initVal = v
 							}
 						}
@@ -211,7 +211,7 @@ func init() {
 		fmt.Fprintf(w, "/-- Initial value of `%s` (the first id handed out is one more). -/\ndef cidInitial : Nat := %d\n", counter.Name(), initVal)
 
 		// 4. AliasContext copies the source's value under the same key
-		ac := p.funcDecl("AliasContext")
+		ac := p.topFunc("AliasContext")
 		if ac == nil {
 			return fmt.Errorf("func AliasContext not found")
 		}
@@ -288,7 +288,7 @@ func init() {
 		fmt.Fprintf(w, "/-- `contextFormat`/`contextFormatf`: the first argument of `v.format`/`v.formatf` is the function's own `ctx` parameter (false: a shadowing variable — the nil result of the failed type assertion). -/\ndef fallbackPassesOriginalCtx : Bool := %v\n", passes)
 
 		// 6. Switch: per level the writer, label and flags
-		sw := p.funcDecl("Switch")
+		sw := p.topFunc("Switch")
 		if sw == nil {
 			return fmt.Errorf("func Switch not found")
 		}
@@ -315,7 +315,7 @@ func init() {
 			if !ok || exprName(c2.Fun) != "log.New" || len(c2.Args) != 3 {
 				continue
 			}
-			fl, _ := p.intConst(c2.Args[2])
+			fl, _ := p.intConst64(c2.Args[2])
 			lvs = append(lvs, lv{exprName(as.Lhs[0]), exprName(c2.Args[1]), exprName(c2.Args[0]) == wparam, fl})
 		}
 		if len(lvs) != 4 {
